@@ -58,7 +58,22 @@ Inductive case :=
    (GOMAXPROCS 1 and many, fakes that yield at every call, repeated calls); Bitcoin nonces are translated
    back to the number of the transaction (0 = not the nonce of any transaction of the chain) *)
 | Conc (k : kind) (deps : list deposit) (calls : list (Z * Z * option N)) (seq : list (list mgroup))
-       (runs : list (list (list mgroup))).
+       (runs : list (list (list mgroup)))
+(* ONE long-lived executor object (real Executor.Execute) goes through a history of deliveries - the same
+   delivery several times, others in between; a relayer restarted in between executes every delivery on a new
+   object.  EVM: gas cap, transfer gas; the deliveries (message id; per proposal deposit nonce, gasLimit
+   metadata, executed on the destination); [fresh]: per delivery the sessions (members, session ids) the new
+   object started; [steps]: per step of the history the index of the delivery and the sessions the long-lived
+   object started *)
+| SessH (cap tg : N) (dels : list (string * list (N * option N * bool)))
+        (fresh : list (list (list N * list string))) (steps : list (nat * list (list N * list string)))
+(* Substrate: per proposal deposit nonce, executed *)
+| SubH (dels : list (string * list (N * bool)))
+       (fresh : list (list (list N * list string))) (steps : list (nat * list (list N * list string)))
+(* Bitcoin: per proposal (deposit nonce, resource id), executed record; per goroutine the nonces it put into
+   its transaction and the resource it asked for *)
+| BexecH (dels : list (list (N * N * bool)))
+         (fresh : list (list (list N * option N))) (steps : list (nat * list (list N * option N))).
 
 Definition src_domain : Z := 1.
 
@@ -183,6 +198,11 @@ Definition agree (c : case) : bool :=
   (* chain order, as the model says *)
   | Retry k s e evs runs => match runs with r :: _ => mgl_eqb (retry_model src_domain s e evs) r | [] => false end
   | Conc k deps calls seq runs => mgll_eqb (map (call_model k deps) calls) seq
+  (* the restarted relayer does what the model says (the steps are the judge's business) *)
+  | SessH cap tg dels fresh _ =>
+      list_eqb sess_eqb (map (fun d => evm_exec (fst d) cap tg (mark (snd d) [])) dels) fresh
+  | SubH dels fresh _ => list_eqb sess_eqb (map (fun d => sub_exec (fst d) (mark (snd d) [])) dels) fresh
+  | BexecH dels fresh _ => list_eqb bgroups_eqb (map (fun d => btc_exec (mark d [])) dels) fresh
   end.
 
 Definition judge (c : case) : bool :=
@@ -202,6 +222,11 @@ Definition judge (c : case) : bool :=
   | Retry _ _ _ _ runs => reps_ok runs
   (* never on timing: every call sends under every schedule what it sends when the calls do not overlap *)
   | Conc _ _ _ seq runs => conc_ok seq runs
+  (* never on what the long-lived object did before: every session it starts at any step of its history is
+     one the restarted relayer starts for that delivery *)
+  | SessH _ _ _ fresh steps => hist_ok sess1_eqb fresh steps
+  | SubH _ fresh steps => hist_ok sess1_eqb fresh steps
+  | BexecH _ fresh steps => hist_ok bgroup1_eqb fresh steps
   end.
 
 Definition tag (c : case) : N :=
@@ -220,6 +245,9 @@ Definition tag (c : case) : N :=
       ((match k with Evm => 24 | _ => 26 end)
        + (if existsb (fun g : N * list rdep => Nat.leb 2 (List.length (snd g))) (retry_groups evs) then 1 else 0))%N
   | Conc k _ _ _ _ => match k with Evm => 28%N | Sub => 29%N | Btc => 30%N end
+  | SessH _ _ _ _ steps => (31 + N.min 1 (N.of_nat (List.length steps) / 5))%N
+  | SubH _ _ steps => (33 + N.min 1 (N.of_nat (List.length steps) / 5))%N
+  | BexecH _ _ steps => (35 + N.min 1 (N.of_nat (List.length steps) / 5))%N
   end.
 
 Definition check_all := check_cases agree judge tag.
